@@ -120,6 +120,11 @@ def run_differential(chk, n):
                     taken.add(tuple(nw))
                     news.append(nw)
                 ops.insert(0, (7, [list(o) for o in olds], news))
+            # (not after clear_policy: it is memory-only, so the store can then hold a rule twice, and a policy LOADED with a
+            # repeated line is a list for Enforcer and a set for FastEnforcer - same set of rules, outside this comparison)
+            if rng.random() < 0.3 and not any(o[0] == 30 for o in ops):
+                pos = rng.randrange(len(ops) + 1)
+                ops[pos:pos] = [(32, rng.randint(0, 5)) if rng.random() < 0.7 else (31,)] + mgmt.probe_ops(kind, mgmt.Universe(kind))[:6]
             if rng.random() < 0.15:          # enforcement switched off (and maybe on again) somewhere
                 ops.insert(rng.randrange(len(ops)), (38, False))
                 if rng.random() < 0.5:
